@@ -61,7 +61,16 @@ def generate(rng, prop, tier):
         elif kind == 'advance':
             op['dt'] = rng.choice([1, 2, 3600])
         ops.append(op)
+    if label in ('sql-file', 'file-pkl', 'file-json', 'dir-pkl', 'dir-json') and rng.chance(0.08):
+        # one bulk step: several hundred entries go into the cache at once and reach the archive through a
+        # single dump()/sync() (batch paths of a backend are only taken above some size)
+        ops = ops[:10]
+        ops.insert(rng.randint(0, len(ops)), {'op': 'cbulk', 'n': rng.choice([520, 600, 1100])})
+        ops.append({'op': rng.choice(['dump', 'sync'])})
     return {'engine': 'syncsim', 'prop': prop, 'backend': B.config(label, B.odd_name(rng, label, 's0')), 'ops': ops,
+            # 'fresh': the archives are read back through NEW handles on the same location (what is in the store,
+            # not what one connection believes); 'same': through the handle the cache holds
+            'reader': rng.choice(['fresh', 'same']),
             'kseed': rng.below(1 << 30), 'seedfill': rng.chance(0.3) and
             [[rng.choice(keys), rng.choice(vals)] for _ in range(rng.randint(1, 3))] or [],
             # sparse: cache and archives are read back only every few steps and at the end, so that the
@@ -112,6 +121,7 @@ def execute(case, prop, ctx):
             krng = _random.Random(case['kseed'])
             c = B.make(cfg, root, cached=True)
             reals = [c.archive]             # every real archive object ever attached
+            rcfgs = [cfg]
             models = [{}]                   # their model contents
             isnull = [null]
             mem = {}
@@ -130,6 +140,8 @@ def execute(case, prop, ctx):
                     raise Mismatch('cache-contents', '%s: cache holds %s, model %s' % (what, show(got), show(mem)))
                 for i, a in enumerate(reals):
                     try:
+                        if case.get('reader') == 'fresh' and B.is_persistent(rcfgs[i]):
+                            a = B.make(rcfgs[i], root, cached=False)
                         d = dict(a.items())
                     except Exception as e:
                         raise Mismatch('archive-unreadable', '%s: archive %d unreadable: %s %s'
@@ -188,6 +200,11 @@ def execute(case, prop, ctx):
                     d = dict((dec(a), dec(b)) for a, b in op['m'])
                     c.update(d)
                     mem.update(d)
+                elif kind == 'cbulk':
+                    d = dict(('b%d' % i, i) for i in range(1000, 1000 + op['n']))
+                    c.update(d)
+                    mem.update(d)
+                    bump(faults, 'bulk-fill')
                 elif kind == 'cclear':
                     c.clear()
                     mem.clear()
@@ -275,6 +292,7 @@ def execute(case, prop, ctx):
                     a2 = B.make(b2, root, cached=False)
                     c.open(a2)
                     reals.append(a2)
+                    rcfgs.append(b2)
                     models.append({})
                     isnull.append(null)
                     attached, parked = len(reals) - 1, None
@@ -318,6 +336,15 @@ def simplify(case):
         c = _copy.deepcopy(case)
         c['observe'] = 'full'
         yield c
+    if case.get('reader') == 'fresh':
+        c = _copy.deepcopy(case)
+        c['reader'] = 'same'
+        yield c
+    for i, op in enumerate(case['ops']):
+        if op['op'] == 'cbulk' and op['n'] > 3:
+            c = _copy.deepcopy(case)
+            c['ops'][i]['n'] = 3
+            yield c
     for i, op in enumerate(case['ops']):
         if 'v' in op and op['v'] not in (7, 'v'):
             c = _copy.deepcopy(case)
